@@ -62,6 +62,7 @@ func rulesC04(c *Ctx) {
 	runeringRule(c, "C04.runering")
 	// ---- loops exit at end of input ----
 	eofexitC04(c, tt)
+	bareProgressC04(c)
 	// ---- statement parsers return a node or an error ----
 	errshapeC04(c)
 }
@@ -692,4 +693,38 @@ func assertedAway(p *Program, fb funcBody, ts *ast.TypeSwitchStmt) map[string]bo
 		return true
 	})
 	return out
+}
+
+// bareProgressC04: the bare-identifier reader consumes what it is entered for.
+func bareProgressC04(c *Ctx) {
+	p := c.P
+	c.Rule("C04.progress", "ScanBareIdent, evaluated with its reader delivering one and the same identifier character for ever (a letter, a digit, an underscore), has no reachable return: it never stops in front of a character for which scanIdent's loop re-enters it, so that loop always advances (a reader that refuses, say, a leading digit returns at once with nothing consumed and the scanner spins on `$1`)")
+	f := p.SSAFunc(p.Func("ScanBareIdent"))
+	isIC := p.Func("isIdentChar")
+	if f == nil || isIC == nil {
+		c.Unk("C04.progress", "ScanBareIdent", 0, "anchor not found")
+		return
+	}
+	s0 := p.newSCCP()
+	n := 0
+	for _, ch := range []rune{'a', 'Z', '_', '0', '7'} {
+		if ok, dec := s0.evalConstBool(isIC, cConst(constant.MakeInt64(int64(ch)))); !dec || !ok {
+			continue
+		}
+		n++
+		s := p.newSCCP()
+		s.hook = func(call *ssa.Call, args []cval) ([]cval, bool) {
+			if call.Call.IsInvoke() && call.Call.Method.Name() == "ReadRune" {
+				return []cval{cConst(constant.MakeInt64(int64(ch))), cTop, cNil()}, true
+			}
+			return nil, false
+		}
+		key := fmt.Sprintf("ScanBareIdent: fed %q for ever", ch)
+		if rets := s.Eval(f, nil); len(rets) == 0 {
+			c.OK("C04.progress", key, f.Pos(), "keeps consuming")
+		} else {
+			c.Bad("C04.progress", key, rets[0].Pos, "can return while an identifier character is waiting: the caller's loop re-enters it without progress")
+		}
+	}
+	c.Floor("C04.progress", n, 3)
 }
